@@ -30,6 +30,7 @@ def main():
     ap.add_argument("--tier", default="quick")
     ap.add_argument("--keep", action="store_true")
     ap.add_argument("--skip-confirm", action="store_true")
+    ap.add_argument("--scratch", action="store_true", help="apply the patch to a scratch worktree and point the checks at it (VERIF_REPO)")
     args = ap.parse_args()
     seed = os.path.abspath(args.seed_dir)
     meta = json.load(open(os.path.join(seed, "meta.json")))
@@ -61,15 +62,25 @@ def main():
             report["baseline_ok"] = code == 0
         finally:
             sh(f"git -C /repo worktree remove --force {scratch}")
-    # run the checks against /repo with the patch applied
-    code, out = sh("git -C /repo status --porcelain --untracked-files=no")
-    assert out.strip() == "", "/repo has uncommitted changes: " + out
-    code, out = sh(f"git -C /repo apply {patch}")
-    assert code == 0, out
+    # run the checks with the patch applied: against /repo itself (default), or - with --scratch - against a scratch
+    # worktree through VERIF_REPO so that other work reading /repo is not disturbed
     results = {}
+    if args.scratch:
+        target = f"/tmp/seedrun_{args.name}"
+        sh(f"git -C /repo worktree remove --force {target}")
+        code, out = sh(f"git -C /repo worktree add --detach {target} HEAD")
+        assert code == 0, out
+        env = f"VERIF_REPO={target} "
+    else:
+        target = "/repo"
+        env = ""
+        code, out = sh("git -C /repo status --porcelain --untracked-files=no")
+        assert out.strip() == "", "/repo has uncommitted changes: " + out
+    code, out = sh(f"git -C {target} apply {patch}")
+    assert code == 0, out
     try:
         for chk in checks:
-            code, out = sh(f"./check {chk} --tier {args.tier}", cwd=VERIF, timeout=7200)
+            code, out = sh(f"{env}./check {chk} --tier {args.tier}", cwd=VERIF, timeout=7200)
             lines = [l for l in out.splitlines() if l.startswith(("VIOLATION", "OK ", "# "))]
             results[chk] = {"exit": code, "lines": lines[-3:]}
             rp = [l for l in lines if l.startswith("VIOLATION")]
@@ -80,7 +91,10 @@ def main():
                     results[chk]["kind"] = doc.get("kind")
                     results[chk]["what"] = doc.get("what")
     finally:
-        sh("git -C /repo checkout -- .")
+        if args.scratch:
+            sh(f"git -C /repo worktree remove --force {target}")
+        else:
+            sh("git -C /repo checkout -- .")
     report["checks"] = results
     report["caught_by"] = [c for c, r in results.items() if r["exit"] == 1]
     print(json.dumps(report, indent=1))
@@ -93,7 +107,7 @@ def main():
         meta["checks_run"] = results
         meta["what_was_run"] = (f"tools/seedtest.py: demo on clean scratch worktree (exit {report.get('demo_clean_exit')}), demo with patch "
                                 f"(exit {report.get('demo_patched_exit')}), tools/baseline.py with patch ({report.get('baseline_with_patch')}), "
-                                f"then `git -C /repo apply patch.diff`, ./check {','.join(checks)} --tier {args.tier}, `git -C /repo checkout -- .`")
+                                f"then `git apply patch.diff` on {'a scratch worktree (VERIF_REPO)' if args.scratch else '/repo'}, ./check {','.join(checks)} --tier {args.tier}, `git -C /repo checkout -- .`")
         json.dump(meta, open(os.path.join(dest, "meta.json"), "w"), indent=1)
     return 0
 
